@@ -483,6 +483,61 @@ def r2_implicit(ctx):
                         ok = not direct and has(IN[nd.id], 'NotNone', path_of(a))
                         yield Ob(km('(h) x12file:%s integer format of %s' % (q, path_of(a) or norm(a, 50))), ok, ctx.floc(f, x),
                                  '' if ok else '%s comes from _int() and is None for a non-numeric value: formatting it with :%s raises TypeError' % (path_of(a) or norm(a, 50), sp))
+    # (j) a two-digit reference designator names positions 1..99 only ('%02i' % 100 is '100', which the path grammar does
+    # not read as an element index: the accessor then indexes with None).  Where a designator is formatted from a loop
+    # variable, the loop must be bounded by the map's child count (< 100 in every map, data sweep), not by the
+    # length of the data, which the input controls
+    mx = 0
+    for fname in ctx.maps.indexed_files():
+        mm = ctx.maps.map(fname)
+        if mm is None:
+            continue
+        for nd_ in mm.walk():
+            if nd_.kind in ('segment', 'composite'):
+                mx = max(mx, len(nd_.children))
+    yield Ob('(j) no segment or composite of any map defines 100 or more children', 0 < mx < 100, 'pyx12/map', '' if 0 < mx < 100 else 'maximum is %d' % mx)
+    for mod in ('error_html', 'x12xml', 'x12xml_simple', 'map_if', 'x12context', 'x12n_document', 'error_997', 'error_999', 'syntax'):
+        m = ctx.mod(mod)
+        for q, f in A.all_functions(m.tree):
+            for c in A.calls_in(f):
+                r_, meth = A.call_target(c)
+                if meth not in REF_METHODS or not c.args:
+                    continue
+                a0 = c.args[0]
+                for k_ in c.keywords:
+                    if k_.arg == 'ref_des':
+                        a0 = k_.value
+                var = None
+                if isinstance(a0, ast.BinOp) and isinstance(a0.op, ast.Mod) and A.is_str(a0.left) and a0.left.value.startswith('%02'):
+                    v_ = a0.right.elts[0] if isinstance(a0.right, ast.Tuple) else a0.right
+                    var = v_
+                elif isinstance(a0, ast.Call) and isinstance(a0.func, ast.Attribute) and a0.func.attr == 'format' and A.is_str(a0.func.value) \
+                        and a0.func.value.value.startswith('{:02') and a0.args:
+                    var = a0.args[0]
+                if var is None:
+                    continue
+                names = [x.id for x in ast.walk(var) if isinstance(x, ast.Name)]
+                loop = None
+                p_ = A.parent(c)
+                while p_ is not None and p_ is not f:
+                    if isinstance(p_, (ast.For, ast.comprehension)) and any(isinstance(x, ast.Name) and x.id in names for x in ast.walk(p_.target)):
+                        loop = p_
+                        break
+                    p_ = A.parent(p_)
+                if loop is None or not (isinstance(loop.iter, ast.Call) and path_of(loop.iter.func) == 'range'):
+                    continue      # positions taken from map data (syntax notes) or fixed
+                big = (0,) * 500
+                env = {'seg_data': big, 'comp_data': big, 'seg_node.get_child_count()': 20, 'child_count': 20, 'self.get_child_count()': 20,
+                       'child_node.get_child_count()': 20}
+                try:
+                    hi = A.ev(loop.iter.args[-1] if len(loop.iter.args) > 1 else loop.iter.args[0], env)
+                    ok = hi <= 100
+                except (A.NotClosed, TypeError):
+                    ok = True     # bound not expressed in terms of the data length
+                    hi = None
+                yield Ob(km('(j) %s:%s %s is bounded by the map' % (mod, q, norm(a0, 40))), ok, ctx.loc(m, c),
+                         '' if ok else 'for a segment with 500 elements the loop reaches position %s: a designator above 99 is not parsed as an '
+                         'element index and the accessor raises TypeError' % hi)
     # (i) parameters that callers pass as None must not be dereferenced while None (abstract interpretation over usage x None)
     from .. import absint
     for qual, param in (('composite_if.is_valid', 'comp_data'), ('element_if.is_valid', 'elem')):
